@@ -144,11 +144,28 @@ def render_params(params, receiver: str | None) -> str:
     return ", ".join(parts)
 
 
+def overload_variants(params, receiver, rng, deco: str, name: str) -> tuple[str, list]:
+    """Two '@overload' variants in front of an implementation: the first is narrower than the implementation (a prefix of its
+    positional parameters, all annotated), the second spells the whole list.  The implementation is what Python calls (and what
+    inspect.signature shows); half of the time it carries no annotation at all."""
+    head = [q for q in params if q["kind"] in ("po", "pk")][: rng.randint(0, 2)]
+    narrow = [dict(q, anno="int", default=None) for q in head]
+    full = [dict(q, anno=q["anno"] or "str") for q in params]
+    impl = [dict(q, anno=None) for q in params] if rng.random() < 0.5 else params
+    ret = "" if impl is not params else " -> None"
+    text = (
+        f"    @overload\n{deco}    def {name}({render_params(narrow, receiver)}) -> None: ...\n\n"
+        f"    @overload\n{deco}    def {name}({render_params(full, receiver)}) -> None: ...\n\n"
+        f"{deco}    def {name}({render_params(impl, receiver)}){ret}: ...\n\n"
+    )
+    return text, impl
+
+
 def build_package(idx: int, sigs: list, rng) -> tuple[dict, list]:
     """sigs: list of parameter lists.  Returns (files, ground truth list)."""
     gt = []
     mod_lines = {"m1": [], "m2": []}
-    header = 'CONST = 3\n\n\ndef make():\n    return 1\n\n\n'
+    header = 'from typing import overload\n\nCONST = 3\n\n\ndef make():\n    return 1\n\n\n'
     cls_count = {"m1": 0, "m2": 0}
     i = 0
     n = len(sigs)
@@ -178,16 +195,28 @@ def build_package(idx: int, sigs: list, rng) -> tuple[dict, list]:
                 if kind == "ctor":
                     have_ctor = True
                     recv = rng.choice(["self", "self", "this"])
-                    lines.append(f"    def __init__({render_params(params, recv)}) -> None: ...\n\n")
+                    if rng.random() < 0.2:
+                        text, params = overload_variants(params, recv, rng, "", "__init__")
+                        lines.append(text)
+                    else:
+                        lines.append(f"    def __init__({render_params(params, recv)}) -> None: ...\n\n")
                     gt.append({"id": f"pk/{mod}/{cname}/__init__", "mod": mod, "path": cname, "role": "ctor", "params": params, "receiver": recv})
                 elif kind == "inst":
                     recv = rng.choice(["self", "self", "me"])
                     name = f"m_{i}"
-                    lines.append(f"    def {name}({render_params(params, recv)}) -> None: ...\n\n")
+                    if rng.random() < 0.15:
+                        text, params = overload_variants(params, recv, rng, "", name)
+                        lines.append(text)
+                    else:
+                        lines.append(f"    def {name}({render_params(params, recv)}) -> None: ...\n\n")
                     gt.append({"id": f"pk/{mod}/{cname}/{name}", "mod": mod, "path": f"{cname}/{name}", "role": "inst", "params": params, "receiver": recv})
                 elif kind == "static":
                     name = f"s_{i}"
-                    lines.append(f"    @staticmethod\n    def {name}({render_params(params, None)}) -> None: ...\n\n")
+                    if rng.random() < 0.15:
+                        text, params = overload_variants(params, None, rng, "    @staticmethod\n", name)
+                        lines.append(text)
+                    else:
+                        lines.append(f"    @staticmethod\n    def {name}({render_params(params, None)}) -> None: ...\n\n")
                     gt.append({"id": f"pk/{mod}/{cname}/{name}", "mod": mod, "path": f"{cname}/{name}", "role": "static", "params": params, "receiver": None})
                 else:
                     recv = rng.choice(["cls", "cls", "klass"])
